@@ -1279,6 +1279,9 @@ done:
        */
       *bin     = (unsigned char *)ares_buf_finish_str(binbuf, &mylen);
       *bin_len = mylen;
+    } else {
+      /* The caller only wanted to skip over the string */
+      ares_buf_destroy(binbuf);
     }
   }
 
